@@ -1,7 +1,7 @@
 /-
   C16 — property theorems (and non-vacuity examples) ONLY.  Helper lemmas: `Lemmas.lean`,
   `Columns.lean`, `Ops.lean`, `Refine.lean`, `Steps.lean`, `ReadOnly.lean`, `RoSteps.lean`, `Lifetime.lean`, `Builtins.lean`, `Sim.lean`,
-  `Quirks.lean`, `Frame.lean` (extension round), `FrameG.lean`, `BuiltinGlue.lean` (wave 3).
+  `Quirks.lean`, `Frame.lean` (extension round), `FrameG.lean`, `BuiltinGlue.lean`, `RoPaths.lean` (wave 3).
 
   Property text: "For every history of assignments, temporary assignments, function calls and
   returns, local declarations, exports, read-only marks and unsets, looking up a variable returns
@@ -20,6 +20,7 @@ import YashModel.Variable.Observe
 import YashModel.Variable.Frame
 import YashModel.Variable.FrameG
 import YashModel.Variable.BuiltinGlue
+import YashModel.Variable.RoPaths
 namespace YashModel.Variable
 
 /-! ### the normal form is an invariant -/
@@ -1121,7 +1122,7 @@ def builtinOfStmt : String → Option String
   | "SP" => some "set" | "T" | "L" | "G" => some "typeset" | _ => none
 
 def Action.isSpecial : Action → Bool
-  | .special _ _ => true
+  | .special _ _ | .decl _ _ _ | .unsetv _ => true
   | _ => false
 
 /-- ★ `script_builtin_kinds_match`: a statement of the script language is interpreted as a special
@@ -1135,30 +1136,31 @@ theorem script_builtin_kinds_match :
       | some b => (stmtAction ⟨k, ["x"], ["x"]⟩).isSpecial ==
           (Generated.VariableTables.builtinTypes.lookup b == some "Special")) = true := by decide
 
-/-- ★ `script_typeset_is_execute`: what `Script.lean` does for `typeset opts operands` (statements
-    `T`, `L`, `G`; `opts` any sequence over -g -r -x -X +x +r) is the transcribed built-in:
-    `interpret` (attributes in option order, `-X` = export off, scope from `-g`) followed by
-    `SetVariables::execute` (split at `=`, `get_or_create_variable` in the converted scope, assignment
-    whose refusal skips the attributes, attribute loop where `+r` on a read-only variable is an error
-    that skips the rest), for every operand in order, on the Rust model and on the Spec alike -/
+/-- ★ `script_typeset_is_execute`: the statements `T`, `L`, `G`, `TP` of the script language run the
+    transcribed built-in (`typesetMain` = `interpret` + `SetVariables::execute`) on the option
+    occurrences their option strings stand for; and the earlier description of `typeset` in
+    `Script.lean` (`typesetField` over option strings, which the theorems `typeset_readonly_immutable`
+    etc. are about) is that same function: attributes in option order, `-X` = export off, scope from
+    `-g`, split at `=`, `get_or_create_variable` in the converted scope, assignment whose refusal skips
+    the attributes, `+r` on a read-only variable an error that skips the rest — for every option
+    sequence over -g -r -x -X +x +r, every operand list, on the Rust model and on the Spec alike -/
 theorem script_typeset_is_execute {σ} (I : Iface σ) (hI : NoRefusal I) (occs : List OptOcc)
     (hfam : ∀ o ∈ occs, o ∈ typesetFamily) (operands : List String) (s : σ) :
-    stmtAction ⟨"T", occs.map optString, operands⟩
-      = .typeset [] (interpretScope (interpretLoop occs)).toScope (occs.map optString) operands ∧
+    stmtAction ⟨"T", occs.map optString, operands⟩ = .typeset [] occs operands ∧
+    (if (occs.map optString).contains "-g" then Scope.global else Scope.loc)
+      = (interpretScope (interpretLoop occs)).toScope ∧
     operands.foldl (typesetField I (interpretScope (interpretLoop occs)).toScope (occs.map optString)) s
       = (typesetMain I occs operands s).1 := by
-  constructor
-  · simp only [stmtAction]; rw [typeset_scope_eq occs hfam]
+  refine ⟨?_, typeset_scope_eq occs hfam, ?_⟩
+  · simp only [stmtAction]; rw [optOccOf_optString occs hfam]
   · simp only [typesetMain, SetVariables.execute, foldErrors_fst]
     congr 1
     funext s t
     exact typesetField_eq_executeField I hI _ occs hfam operands s t
 
 /-- `L m…` is `typeset m…`, `G m…` is `typeset -g m…` -/
-example : stmtAction ⟨"L", ["x=1"], []⟩ = .typeset [] (interpretScope (interpretLoop [])).toScope
-    (([] : List OptOcc).map optString) ["x=1"] := rfl
-example : stmtAction ⟨"G", ["x=1"], []⟩ = .typeset [] (interpretScope (interpretLoop [⟨'g', true⟩])).toScope
-    ([⟨'g', true⟩].map optString) ["x=1"] := rfl
+example : stmtAction ⟨"L", ["x=1"], []⟩ = .typeset [] [] ["x=1"] := rfl
+example : stmtAction ⟨"G", ["x=1"], []⟩ = .typeset [] [⟨'g', true⟩] ["x=1"] := rfl
 example : NoRefusal ifaceM ∧ NoRefusal ifaceS := ⟨noRefusal_M, noRefusal_S⟩
 /-- non-vacuity (the operand text is split with `String.splitOn`, which the kernel does not unfold, so
     the examples start after the split): `typeset -x +r -r x` in a function where `x` is a read-only
@@ -1216,6 +1218,70 @@ example : (runOps ifaceM roX (unsetOps ["x", "y"])).2 = true ∧
     ((runOps ifaceM roX (unsetOps ["x", "y"])).1.get "y").isSome = true := by decide
 example : (unsetVariables ifaceM ["y"] roX).2 = 0 := by decide
 
+/-! ### wave 3 (second half): a read-only variable is never modified or unset, on every path -/
+
+/-- ★ `entry_points_freeze_readonly` (`Variable` / `VariableRefMut`): every mutating method applied to
+    a read-only variable — `assign` leaves the *whole* variable as it is (value, last assignment
+    location, attributes, quirk); `make_read_only` again leaves it as it is (the first location
+    stays); `export` changes nothing but the export flag; `set_quirk` nothing but the quirk -/
+theorem entry_points_freeze_readonly (u : Variable) (hro : u.isReadOnly = true) :
+    (∀ v l, u.assign v l = u) ∧ (∀ l, u.makeReadOnly l = u) ∧
+    (∀ b, (u.setExport b).value = u.value ∧ (u.setExport b).readOnly = u.readOnly ∧
+      (u.setExport b).lastAssigned = u.lastAssigned ∧ (u.setExport b).quirk = u.quirk) ∧
+    (∀ q, (u.setQuirk q).value = u.value ∧ (u.setQuirk q).readOnly = u.readOnly ∧
+      (u.setQuirk q).lastAssigned = u.lastAssigned ∧ (u.setQuirk q).exported = u.exported) := by
+  refine ⟨fun v l => by simp [Variable.assign, hro], fun l => ?_, fun b => ⟨rfl, rfl, rfl, rfl⟩,
+    fun q => ⟨rfl, rfl, rfl, rfl⟩⟩
+  cases hr : u.readOnly with
+  | none => simp [Variable.isReadOnly, hr] at hro
+  | some k => cases u; simp_all [Variable.makeReadOnly]
+
+/-- ★ `readonly_kept_on_every_path`: in every reachable set, every path that writes variables keeps
+    every read-only instance — visible or hidden — with its value and mark (`KeepsAll s s'`: for every
+    name and every read-only instance of it in `s` there is a read-only instance in `s'` with the same
+    value and read-only location), **also when the path goes on after a refusal**:
+    `export`/`readonly` (`declMain`: all operands, with or without values), `unset` (`unset_variables`),
+    `typeset` with any options and operands (`typesetMain`, incl. `+r`), `read`/`getopts` (`readAssign`
+    over any targets), any sequence of operations other than `pop` stopped at its first refusal
+    (assignment-only commands, prefix assignments of every command kind, `for`, `$((x=…))`, `${x=…}`),
+    and the multi-step entry points of `VariableSet`: `extend_env`, `init` -/
+theorem readonly_kept_on_every_path (ops : List Op) :
+    let s := VariableSet.new.run ops
+    (∀ attr occs operands, KeepsAll s (declMain ifaceM attr occs operands s).1) ∧
+    (∀ names, KeepsAll s (unsetVariables ifaceM names s).1) ∧
+    (∀ occs operands, KeepsAll s (typesetMain ifaceM occs operands s).1) ∧
+    (∀ targets, KeepsAll s (foldErrors (readAssign ifaceM) targets (s, 0)).1) ∧
+    (∀ ops', (∀ op ∈ ops', op ≠ Op.pop) → KeepsAll s (runOps ifaceM s ops').1 ∧ KeepsAll s (s.run ops')) ∧
+    (∀ vars, KeepsAll s (s.extendEnv vars)) ∧
+    KeepsAll s s.init := by
+  intro s
+  have hG : Good s := run_shadow norm_init (fun _ => trivial) ops
+  refine ⟨fun attr occs operands => (execute_keeps _ s hG).1, fun names => ?_, fun occs operands => (execute_keeps _ s hG).1,
+    fun targets => ?_, fun ops' hp => ⟨(runOps_keeps ops' s hG hp).1, (run_keepsAll ops' s hG hp).1⟩,
+    fun vars => (extendEnv_keeps vars s hG).1, ?_⟩
+  · exact (foldErrors_keeps _ (fun s n hs => unsetVariable_keeps s n hs) names s 0 hG).1
+  · exact (foldErrors_keeps _ (fun s x hs => readAssign_keeps s x hs) targets s 0 hG).1
+  · refine (run_keepsAll theInitOps s hG ?_).1
+    intro op hop
+    simp only [theInitOps, initOps, List.mem_append, List.mem_map, List.mem_singleton] at hop
+    rcases hop with ⟨p, _, rfl⟩ | rfl <;> simp
+
+/-- ★ `pop_removes_only_its_context`: the one operation `readonly_immutable` excludes.  Popping a
+    context keeps every instance — read-only or not — of every lower context; so with
+    `readonly_immutable` a read-only instance can disappear in one way only: its own context ends -/
+theorem pop_removes_only_its_context (s : VariableSet) (n : Name) (e : VIC) (he : e ∈ s.all n)
+    (hc : e.ctx + 1 < s.contexts.length) : e ∈ (s.step .pop).1.all n :=
+  pop_keeps_lower s n e he hc
+
+/-- non-vacuity: `readonly x=1 y=2` on a read-only `x`: refused, goes on, `y` is marked, `x` untouched
+    (the operand texts are split by `String.splitOn`, not unfolded by the kernel: the example starts
+    after the split, with `attrLoop` / `readAssign`) -/
+example : (foldErrors (readAssign ifaceM) [("x", .scalar "a"), ("y", .scalar "b")] (roX, 0)).2 = 1 ∧
+    ((foldErrors (readAssign ifaceM) [("x", .scalar "a"), ("y", .scalar "b")] (roX, 0)).1.get "x").map (·.value)
+      = some (some (.scalar "0")) ∧
+    ((foldErrors (readAssign ifaceM) [("x", .scalar "a"), ("y", .scalar "b")] (roX, 0)).1.get "y").map (·.value)
+      = some (some (.scalar "b")) := by decide
+
 /-! ### non-vacuity: a set with a hidden global, a local and a temporary variable -/
 
 def exOps : List Op :=
@@ -1240,5 +1306,84 @@ example : (((VariableSet.new.run roOps).step (.assign "x" .global (.scalar "2") 
 example : (((VariableSet.new.run roOps).step (.assign "x" .global (.scalar "2") none)).1.get "x")
     = some { value := some (.scalar "1"), exported := true, readOnly := some 7 } := by decide
 example : ((VariableSet.new.run roOps).unset "x" .global).2 = .readOnly 7 := by decide
+
+/-- ★ `nested_calls_params`: "a function's positional parameters vanish at return", for nested calls
+    of any depth.  (1) Whatever the set a call starts in — hence at every nesting depth — the body
+    sees exactly the call's own arguments.  (2) After a chain of nested calls (`nestCalls`: each level
+    has its temporaries, its arguments and any balanced operations before and after the inner call,
+    `set --` at any level included) the positional parameters and the contexts are those before the
+    outermost call. -/
+theorem nested_calls_params (s : VariableSet) (h : Norm s) :
+    (∀ as ps, (s.run (enterFunction as ps)).positionalParams = ps) ∧
+    (∀ levels : List (List (Name × Value) × List String × List Op × List Op),
+      (∀ l ∈ levels, balanced 0 l.2.2.1 = true ∧ balanced 0 l.2.2.2 = true) →
+      (s.run (nestCalls levels)).positionalParams = s.positionalParams ∧
+      (s.run (nestCalls levels)).contexts = s.contexts) := by
+  constructor
+  · intro as ps
+    obtain ⟨ha, _⟩ := run_abs_from h (enterFunction as ps)
+    obtain ⟨cV, hin, _, _⟩ := spec_enter_function (abs s) as ps
+    rw [positionalParams_abs, ha]
+    show (SSet.run (abs s) ([Op.push .volatile] ++ tempOps as ++ [Op.push (.regular ps)])).positionalParams = ps
+    rw [hin]; rfl
+  · intro levels hl
+    cases levels with
+    | nil => exact ⟨rfl, rfl⟩
+    | cons l rest =>
+      obtain ⟨as, ps, pre, post⟩ := l
+      have hb : balanced 0 (pre ++ nestCalls rest ++ post) = true := by
+        have h1 := hl _ (List.mem_cons_self)
+        have h2 := balanced_nestCalls rest (fun l hm => hl l (List.mem_cons_of_mem _ hm))
+        exact balanced_append0 _ _ (balanced_append0 _ _ h1.1 h2) h1.2
+      have := function_call_frame s h as ps (pre ++ nestCalls rest ++ post) hb (fun _ => False)
+        (fun _ _ _ _ hf => hf)
+      exact ⟨this.2.2, this.2.1⟩
+
+/-- non-vacuity: `f a` calls `set -- q` and `g b c` (which does `set --` itself) and then `set -- r` -/
+example : (lt0.run (nestCalls [([], ["a"], [.setParams ["q"]], [.setParams ["r"]]),
+    ([("x", .scalar "T")], ["b", "c"], [.setParams []], [])])).positionalParams = [] := by decide
+example : (lt0.run (enterFunction [] ["a"] ++ [.setParams ["q"]] ++ enterFunction [("x", .scalar "T")] ["b", "c"])).positionalParams
+    = ["b", "c"] := by decide
+
+/-- ★ `env_ignores_hidden_instances`: the environment is built from the innermost visible view only.
+    When the visible variable of a name is not exported (a function's local shadowing an exported
+    global, say) the name has **no** entry, whatever exported instances are hidden below; with
+    `env_exact` (iff for the visible variable) and `temporary_assignment_scope` (2) (a temporary is
+    exported for the command's duration) this is the whole clause -/
+theorem env_ignores_hidden_instances (s : VariableSet) (names : List Name) (n : Name) (u : Variable)
+    (hv : s.get n = some u) (hx : u.exported = false) : ∀ x, (n, x) ∉ s.env names := by
+  intro x hmem
+  simp only [VariableSet.env, List.mem_filterMap] at hmem
+  obtain ⟨m, _, hm⟩ := hmem
+  cases hg : s.get m with
+  | none => simp [hg] at hm
+  | some w =>
+    simp only [hg, Option.bind_some] at hm
+    have hmn : m = n := (envEntry_name m w (n, x) hm).symm
+    subst hmn
+    rw [hv] at hg
+    cases hg
+    simp [envEntry, hx] at hm
+
+/-- non-vacuity: `exOps` — exported global `x=1`, a function's local `x=2`, a temporary `x=3` -/
+example : ∀ v, ("x", v) ∉ ((VariableSet.new.run exOps).popContext).env ["x"] :=
+  env_ignores_hidden_instances _ _ "x" { value := some (.scalar "2") } (by decide) rfl
+
+/-- ★ `getOrNew_idempotent`: `SetVariables::execute` (and `perform_assignment`) call `get_or_new` once
+    and then assign / export / mark through the returned reference, while every operation of the model
+    looks the variable up again.  Both are the same: on every normalised set a second
+    `get_or_new(name, scope)` succeeds and returns **the very same set** — the same per-name stacks
+    (representation, not only the abstract state) and the same contexts; in particular also the same
+    stack of maps (second clause, proved independently on the Spec: `spec_getOrNew_idem`) -/
+theorem getOrNew_idempotent (s s1 : VariableSet) (h : Norm s) (n : Name) (sc : Scope)
+    (h1 : s.getOrNew n sc = some s1) :
+    s1.getOrNew n sc = some s1 ∧ (abs s1).getOrNew n sc = some (abs s1) := by
+  refine ⟨getOrNew_idem_repr s s1 h n sc h1, ?_⟩
+  have ha : (abs s).getOrNew n sc = some (abs s1) := by
+    rw [← (getOrNew_abs h n sc).1, h1]; rfl
+  exact spec_getOrNew_idem _ _ n sc ha
+
+example : ∃ s1, (VariableSet.new.run exOps).getOrNew "x" .global = some s1 ∧
+    (s1.getOrNew "x" .global).map (·.all "x") = some (s1.all "x") := ⟨_, rfl, by decide⟩
 
 end YashModel.Variable
